@@ -113,7 +113,7 @@ def run_case(case):
     policy = r.choice(["on_t_sample", "on_t_sample", "on_interval", "on_iteration", "no_sampling"])
     _, mag = ref.rate_law(desc, state, None)
     a_tot = max(sum(mag), 1e-6)
-    maxrate = max([m / (abs(s_) + 1.0) for m, s_ in zip(mag, state)] + [1e-3])
+    maxrate = ref.max_rate(desc, state)
     nsteps_target = r.choice([3, 10, 40, 120])
     if kind_ == "gillespie":
         dt = nsteps_target and (1.0 / a_tot)       # mean waiting time: horizon ~ nsteps events
